@@ -35,7 +35,7 @@ def run_one(mut, tier, jobs, seed):
     tmp = tempfile.mkdtemp(prefix=f"vfmut_{mut['name']}_")
     res = []
     try:
-        subprocess.run(["rsync", "-a", "--exclude", ".git", "--exclude", "__pycache__", "--exclude", "test", "--exclude", "docs", "/repo/", tmp + "/"], check=True)
+        subprocess.run(["rsync", "-a", "--exclude", "__pycache__", "/repo/transactron", tmp + "/"], check=True)
         path = os.path.join(tmp, "transactron", mut["file"])
         s = open(path).read()
         if mut["old"] not in s:
